@@ -205,6 +205,8 @@ class Program:
                     kind = 'classmethod'
                 elif 'property' in decs:
                     kind = 'property'
+                elif any(d.split('.')[-1] == 'cached_property' for d in decs):
+                    kind = 'cached_property'
                 fi = FuncInfo(m.name, f'{node.name}.{s.name}', s, ci, kind, list(s.decorator_list))
                 ci.methods[s.name] = fi
             elif isinstance(s, ast.AnnAssign) and isinstance(s.target, ast.Name):
